@@ -715,6 +715,40 @@ pub fn c11(g: &mut Gen) {
             g.push(format!("net {} learn 4 {} 0 2 2 0", net.token(), s), Tol::Loose, &format!("trained-block/deconv/L{}", loops), true);
         }
     }
+    // … a block whose convolution carries dropout, trained: afterwards the block is again the plain repeated application
+    // (every inner flag cleared)
+    for loops in [2usize, 3] {
+        let c = InnerSpec::Conv { filters: 1, act: "tanh".into(), k: (3, 3), s: (1, 1), p: (1, 1), d: (1, 1), dropout: Some(0.5), ks: vec![weights(g, &Shape::Triple(1, 3, 3), 0.4)] };
+        let mut net = NetSpec { input: Shape::Triple(1, 4, 4), builds: vec![Build::Feedback { inner: vec![c], loops, inskips: false, outskips: false, acc: "add".into() },
+            Build::Layer(dense_spec(g, &cfg, 16, 2, "tanh", true))], skipacc: "add".into(), loopacc: "mean".into(), opt: None, obj: "mse".into(), clamp: None };
+        net.opt = Some(OptSpec::Sgd(0.05, None));
+        let s = samples_tok(g, &net, &Sh::Flat(2), 3);
+        g.push(format!("net {} learn 3 {} 0 2 2 0", net.token(), s), Tol::Loose, &format!("trained-block/conv-with-dropout/L{}", loops), true);
+    }
+    // exact arithmetic: a linear layer that multiplies by a power of two, inputs that are small integers times one power of
+    // two (ordinary, deep in the subnormal range, just above it): every sum is exact, a mean is ONE correctly rounded
+    // division — compared bit for bit (mean of three is not a power-of-two division; mean(u, u) = u for the smallest u)
+    for (si, scale) in [1.0f32, f32::from_bits(1), 2.0f32.powi(-140), 2.0f32.powi(-126)].iter().enumerate() {
+        for acc in ["mean", "add", "sub"] {
+            for (loops, i, o) in [(2usize, true, false), (3, false, true), (3, true, true), (2, false, true), (4, false, true)] {
+                if !g.ctx.thorough() && acc != "mean" && (loops + si) % 2 == 1 { continue; }
+                for (ki, kv) in [1.0f32, 2.0, 0.5].iter().enumerate() {
+                    if ki > 0 && (si + loops) % 2 == 1 { continue; }
+                    let spatial = InnerSpec::Conv { filters: 1, act: "linear".into(), k: (1, 1), s: (1, 1), p: (0, 0), d: (1, 1), dropout: None, ks: vec![Tensor::triple(vec![vec![vec![*kv]]])] };
+                    let xs: Vec<f32> = [8.0f32, 2.0, 4.0, 1.0, 3.0, 6.0].iter().map(|v| v * scale).collect();
+                    let net = NetSpec { input: Shape::Triple(1, 2, 3), builds: vec![Build::Feedback { inner: vec![spatial], loops, inskips: i, outskips: o, acc: acc.into() }],
+                        skipacc: "add".into(), loopacc: "mean".into(), opt: None, obj: "mse".into(), clamp: None };
+                    let xt = Tensor::triple(vec![vec![xs[..3].to_vec(), xs[3..].to_vec()]]);
+                    g.push(format!("net {} predict {}", net.token(), qt(&xt)), Tol::Exact, &format!("exact-grid/spatial/{}/L{}", acc, loops), true);
+                    let flat = InnerSpec::Dense { out: 3, act: "linear".into(), bias: false, dropout: None,
+                        w: Tensor::double((0..3).map(|r| (0..3).map(|c| if r == c { *kv } else { 0.0 }).collect()).collect()), b: None };
+                    let netf = NetSpec { input: Shape::Single(3), builds: vec![Build::Feedback { inner: vec![flat], loops, inskips: i, outskips: o, acc: acc.into() }],
+                        skipacc: "add".into(), loopacc: "mean".into(), opt: None, obj: "mse".into(), clamp: None };
+                    g.push(format!("net {} predict {}", netf.token(), qt(&Tensor::single(xs[..3].to_vec()))), Tol::Exact, &format!("exact-grid/flat/{}/L{}", acc, loops), true);
+                }
+            }
+        }
+    }
     // multiplicative accumulation at the edge of the number range: a repetition that overflows to infinity times a
     // zero of the block input is NaN, not zero (element-wise IEEE arithmetic in the accumulation, also at rank 3)
     {
@@ -794,6 +828,22 @@ pub fn c10(g: &mut Gen) {
             netv.opt = Some(opts[(loops + 2) % opts.len()].clone());
             let sv = samples_tok(g, &netv, &Sh::Vol(1, 3, 4), 2);
             g.push(format!("net {} learn 2 {} 0 2 2 0", netv.token(), sv), Tol::Loose, &format!("learn/widening-deconv/L{}", loops), true);
+        }
+    }
+    // an accumulated parameter that leaves the single-precision range (2.5e38 + 2.5e38, 2.5e38², their mean): every copy
+    // still receives the one accumulated value — the infinite entry and all the ordinary ones.  The huge weight multiplies
+    // a zero input component in the first repetition and saturates tanh in the second, so everything else stays finite.
+    for acc in ["add", "mul", "mean", "sub"] {
+        for loops in [2usize, 3] {
+            let w = Tensor::double(vec![vec![2.5e38, 0.4], vec![0.3, -0.2]]);
+            let b = Tensor::single(vec![0.1, -0.1]);
+            let inner = InnerSpec::Dense { out: 2, act: "tanh".into(), bias: true, dropout: None, w, b: Some(b) };
+            let mut net = NetSpec { input: Shape::Single(2), builds: vec![Build::Feedback { inner: vec![inner], loops, inskips: false, outskips: false, acc: acc.into() },
+                Build::Layer(dense_spec(g, &cfg, 2, 1, "tanh", true))], skipacc: "add".into(), loopacc: "mean".into(), opt: None, obj: "mse".into(), clamp: None };
+            net.opt = Some(OptSpec::Sgd(0.5, None));
+            let x = Tensor::single(vec![0.0, 0.7]);
+            let t = Tensor::single(vec![0.3]);
+            g.push(format!("net {} learn 1 {} {} 0 1 1 0", net.token(), qt(&x), qt(&t)), Tol::Loose, &format!("learn/overflowing-accumulation/{}/L{}", acc, loops), true);
         }
     }
     // the `overwrite` coupling is not implemented: training such a block is refused
